@@ -39,6 +39,18 @@ def inputs(tier):
             out.append(dict(src='c08', d=dict(kind='alt', layout=lay, partial=partial) if partial else dict(kind='alt', layout=lay)))
     for lay in ([[1, 'ASP'], [2, 'ASPnoCG']], [[1, 'ASPnoCG'], [2, 'ASP']], [[1, 'ASP'], [2, 'ALA']]):
         out.append(dict(src='c08', d=dict(kind='model', layout=lay)))
+    # chains that start with an Asp / Cys / His (two ionizable groups within three bonds) next to a partner in another chain; sites with
+    # non-covalently coupled pairs
+    for tb in ([['A', 25]], [['B', 25]], [['A', 25], ['B', 25]]):
+        d = corpus.cutout_desc('1HPX', 'A', 24, 12.0)
+        d['ter_before'] = tb
+        out.append(dict(src='corpus', d=d))
+    lib = gen.library()
+    for key, ch, num in (('3SGB', 'E', 102), ('3SGB', 'E', 57), ('1HPX', 'A', 59), ('1FTJ', 'A', 193), ('3SGB', 'I', 7)):
+        res = lib.protein_residues(key, ch)
+        idx = next((i for i, (k_, _) in enumerate(res) if k_[1] == num), None)
+        if idx is not None:
+            out.append(dict(src='corpus', d=corpus.cutout_desc(key, ch, idx, 10.0)))
     # residues that follow each other in the file, carry the same number and differ in the chain id only (free amino acids, ligand copies)
     for a, b in (('ASP', 'LYS'), ('GLU', 'HIS'), ('TYR', 'ARG'), ('ACT', 'ACT'), ('MAM', 'ACT'), ('CYS', 'CYS')):
         out.append(dict(src='samenum', a=a, b=b))
@@ -226,6 +238,15 @@ def run_case(case, ctx, acc):
                     p0 = g0s.get(pkey)
                     if p0 is not None and p0['type'] != 'ION' and reskey_of(p0) not in listed:
                         v.append(('coulomb-from-unlisted', '%s has Coulomb determinant %r from unlisted %s' % (k, val, pkey)))
+                # (2a') exactly the listed groups are treated as titratable: an unlisted group is never discarded ("penalised") as the losing
+                # member of a covalently coupled titrating system - it has to stay in place as hydrogen-bond partner
+                if reskey_of(g) not in listed and g['penalised_by']:
+                    v.append(('unlisted-group-penalised-as-titrating', '%s is unlisted but discarded in favour of %s' % (k, g['penalised_by'])))
+                # (2a) only titrating groups can be coupled: a listed group is never marked as coupled with an unlisted one
+                for pkey in g['coupled']:
+                    p0 = g0s.get(pkey)
+                    if p0 is not None and reskey_of(p0) not in listed and reskey_of(g) in listed:
+                        v.append(('coupled-with-unlisted-group', '%s is marked as non-covalently coupled with unlisted %s' % (k, pkey)))
                 # (2b) an unlisted group that is the hydrogen-bond partner of a listed one keeps its own (non-iterative) hydrogen bonds
                 # with other unlisted residues: they decide the pKa it enters the iterative treatment of the listed group with
                 if reskey_of(g) not in listed and g0['dets']['sidechain'] and listed:
